@@ -3,6 +3,7 @@ import RbV.Spec.Occ
 import RbV.Model.ShiftAnd
 import RbV.Model.Horspool
 import RbV.Model.Kmp
+import RbV.Model.Bndm
 /-! Driver for property C08: exact matchers.
 
 `c08 <matcher> <pattern hex> <t1>/<t2>/… => <l1>/<l2>/…`   one matcher object applied to the texts in turn.
@@ -32,14 +33,15 @@ def verdict (toks : List String) (out : String) : String :=
         -- mirror models are run as well (equal to the oracle by theorem; a difference would be a driver defect)
         let mirrorOk := if m = "shiftand" then texts.map (ShiftAnd.findAll p) == exp
           else if m = "horspool" then texts.map (Horspool.findAll p) == exp
-          else if m = "kmp" then texts.map (Kmp.findAll p) == exp else true
+          else if m = "kmp" then texts.map (Kmp.findAll p) == exp
+          else if m = "bndm" then texts.map (Bndm.findAll p) == exp.map some else true
         if !mirrorOk then "bad-op mirror-model-disagrees-with-oracle" else
         if exp = outs then
           let nt := p.length ≥ 2 && exp.any (fun l => !l.isEmpty)
           let tags := (if nt then " nt" else "") ++ (if p.length = 64 then " m64" else "")
             ++ (if p.length ≥ 32 then " m>=32" else "") ++ (if texts.length > 1 then " reuse" else "")
             ++ (if exp.any (fun l => l.length ≥ 2) then " multi" else "")
-            ++ (if m = "shiftand" || m = "horspool" || m = "kmp" then " mirror" else "")
+            ++ (if m != "bom" then " mirror" else "")
           "ok" ++ tags
         else "diff " ++ "/".intercalate (exp.map showNatList)
       | none => if out.startsWith "PANIC" || out.startsWith "HANG" then "reject " ++ out else "bad-op output"
